@@ -296,6 +296,9 @@ func (r *Runner) Go(kind string, tok int, phase string) *Call {
 			c.Val, c.Err = r.CL.CountRetry(r.ctx, tok)
 		case "block":
 			c.Val, c.Err = r.CL.Block(r.ctx, tok)
+		case "block2":
+			// the same server method through another field of the proxy struct (another generated function)
+			c.Val, c.Err = r.CL.BlockRetry(r.ctx, tok)
 		case "note":
 			r.CL.Note(tok)
 		case "sub":
@@ -350,7 +353,7 @@ func (r *Runner) Verdicts(res *fw.Result, sig string, grace time.Duration) {
 	r.mu.Unlock()
 	for _, c := range calls {
 		if !c.Wait(grace) {
-			if c.Kind == "block" {
+			if c.Kind == "block" || c.Kind == "block2" {
 				continue // blocked in its handler by design; released by the scenario
 			}
 			res.Add(fw.Finding{Kind: "monitor", Signature: sig + " call never returns",
@@ -363,7 +366,7 @@ func (r *Runner) Verdicts(res *fw.Result, sig string, grace time.Duration) {
 		}
 		execs := r.E.H.C.Execs(c.Tok)
 		switch c.Kind {
-		case "count", "block", "sub":
+		case "count", "block", "block2", "sub":
 			if execs > 1 {
 				res.Add(fw.Finding{Kind: "monitor", Signature: sig + " executed twice",
 					Detail: fmt.Sprintf("untagged call %s(%d) was executed %d times by the server", c.Kind, c.Tok, execs)})
@@ -857,7 +860,12 @@ func Concurrent(d *fw.Driver, res *fw.Result, seed int64, thorough bool) error {
 		sig := fmt.Sprintf("concurrent n=%d", j.n)
 		var calls []*Call
 		for i := 0; i < j.n; i++ {
-			calls = append(calls, run.Go("block", base+i, "concurrent"))
+			// alternate between two generated functions: ids must be fresh per client, not per function
+			kind := "block"
+			if i%2 == 1 {
+				kind = "block2"
+			}
+			calls = append(calls, run.Go(kind, base+i, "concurrent"))
 		}
 		// all handlers entered, then release in the chosen order
 		deadline := time.Now().Add(5 * time.Second)
